@@ -404,7 +404,7 @@ class BaseSubscription:
                 matched.add(event.kind in query.kinds)
             if query.since:
                 matched.add(event.created_at >= query.since)
-            if query.until:
+            if query.until is not None:
                 matched.add(event.created_at < query.until)
             if query.tags:
                 for tagname, values in query.tags:
